@@ -8,6 +8,7 @@ pub fn scopes(rep: &Report, checks: Checks) {
     let quick = rep.quick();
     let all_strats = |u: &Value| pipeline::all_strategies(u);
     let cheap = |_: usize| vec![Cfg::CHEAP];
+    let vw_cfgs_early = |_: usize| vec![Cfg::CHEAP, Cfg { decoys: true, ..Cfg::CHEAP }, Cfg { fmt: crate::codec::Fmt::Json, alg: crate::keys::Alg::HS256, decoys: false, hk: crate::keys::Hk::Es }];
     // A: pure-structure pass, cheapest configuration
     let (n, d) = if quick { (4, 3) } else { (5, 4) };
     run_structures(rep, &format!("S({n},{d}) x all strategies x all selections, cfg=HS256/compact/no-decoy/no-kb"), &trees(n, d), &all_strats, &cheap, checks, true);
@@ -43,6 +44,11 @@ pub fn scopes(rep: &Report, checks: Checks) {
         run_structures(rep, "thorough: name-prefix family on S(4,3) x {NoSD, Top, All} x all selections", &big1, &fixed_strategies, &cheap, checks, true);
         let big3 = named_trees(4, 3, &["a", "a.a", "a[0]", "b"]);
         run_structures(rep, "thorough: path-spelling family on S(4,3) x {NoSD, Top, All} x all selections", &big3, &fixed_strategies, &cheap, checks, true);
+    }
+    if !quick {
+        run_structures(rep, "equal siblings: 18 trees with identical elements / members side by side x all strategies x all selections, decoys off and on", &equal_sibling_trees(), &all_strats, &vw_cfgs_early, checks, true);
+    } else {
+        run_structures(rep, "equal siblings: 18 trees with identical elements / members side by side x {NoSD, Top, All, 5 Custom} x all selections, decoys off and on", &equal_sibling_trees(), &few_strategies, &vw_cfgs_early, checks, true);
     }
     // D3: pairs of special strings in one container
     let pairs = pair_alphabet_trees();
